@@ -36,4 +36,11 @@ def main():
         R.violation("integrity:monitor", "process %d of history %d (%s): label %d violates the single-process C03 monitor (%s)" % (
             pid, cid, h["kind"], k, (h["trace"][gi] if gi is not None else "?")[:300]), qe.replay_obj(h, gi))
     R.coverage["monitor"] = "C03: mon3 (decide once / backed / bounded DECIDED re-broadcast) on every process of every execution; zero-value only on honest cluster executions"
+    # CmpFail extension built separately: props/c03_cmp.py
+    try:
+        import c03_cmp
+    except ImportError:
+        c03_cmp = None
+    if c03_cmp is not None:
+        c03_cmp.run(R)
     R.finish()
